@@ -69,6 +69,7 @@ func TestNeverWrong(t *testing.T) {
 		ev.ExtraAdd("hits", int64(r.Hits))
 		ev.ExtraAdd("direct_block_writes", int64(r.DirectBlockWrites))
 		ev.ExtraAdd("lookups_answered_20_or_more_links_back", int64(r.DeepWalks))
+		ev.ExtraAdd("lookups_answered_100_or_more_links_back", int64(r.VeryDeepWalks))
 		if nt && ev.WantSample() {
 			lg := r.Log
 			if len(lg) > 60 {
